@@ -130,7 +130,22 @@ fn decode_conflict_free(tape: &[u16], params: &Params, hints: bool, async_weight
     let split = tape.len().min(64);
     let (head, tail) = tape.split_at(split);
     let mut t = Tape::new(tail);
-    let (u, problem) = gen_conflict_free(&mut t, params, hints);
+    let (mut u, problem) = gen_conflict_free(&mut t, params, hints);
+    // Packages outside the first-choice closure G are only ever mentioned by later union
+    // members or by candidates that are never selected: whatever they favor does not change
+    // G, and must not make the solver look at them either.
+    if let Some(g) = first_choice_closure(&u, &problem) {
+        for (pi, pk) in u.packages.iter_mut().enumerate() {
+            if pk.cands.is_empty() || g.iter().any(|s| s.pkg == pi) {
+                continue;
+            }
+            if let Some(&v) = head.get(32 + pi % 32) {
+                if v & 1 == 1 {
+                    pk.favored = Some((v as usize >> 1) % pk.cands.len());
+                }
+            }
+        }
+    }
     let rt = if async_weight == 0 {
         Runtime::Sync
     } else {
@@ -214,7 +229,7 @@ impl C07 {
     }
 }
 
-struct_property!(C07, "C07", "tape -> universe that is conflict-free by construction (every package has a target candidate, requirements issued by root/targets rank the required package's target first, constrains/locks admit targets, exclusions/Unknown and arbitrary noisy dependencies only on non-targets; chains, diamonds, cycles, unions; any favored assignment, any hint pattern, sync or generated async schedule). The reference computes the first-choice closure G and re-verifies the precondition independently (else the case is skipped and counted); solve must return exactly G. Non-trivial: |G|>=4 and (a favored target that is not top-ranked, or a union). Distinct = distinct hash of case.");
+struct_property!(C07, "C07", "tape -> universe that is conflict-free by construction (every package has a target candidate, requirements issued by root/targets rank the required package's target first, constrains/locks admit targets, exclusions/Unknown and arbitrary noisy dependencies only on non-targets; chains, diamonds, cycles, unions; any favored assignment, any hint pattern, sync or generated async schedule). The reference computes the first-choice closure G and re-verifies the precondition independently (else the case is skipped and counted); solve must return exactly G. Stage wide: 100..160 packages, more than 256 solvables and sparse ids beyond 512. Non-trivial: |G|>=4 and (a favored target that is not top-ranked, or a union). Distinct = distinct hash of case.", |s: &C07| if s.stage == "wide" { 8000usize } else { 1600 });
 
 // =============================================================================== C08
 
